@@ -5,13 +5,13 @@
  * the failing draw, the call stack of the failing draw, and whether a secret it holds (master
  * secret, key block, TLS 1.3 IVs, long-term private keys) appeared on its fd 1/2.
  *
- *   hs <tlcp|tls12|tls13> <seed> <client-failat> <server-failat> [auth]      (auth: the server requests a client certificate)
+ *   hs <tlcp|tls12|tls13> <seed> <client-failat> <server-failat> [auth] [k=<n>:<errno>] [app=<n>]
+ *        auth: the server requests a client certificate;  k=n:E: instead of one plain failure, n attempts at that draw fail with errno E
+ *        (destination poisoned) and then the source serves the healthy bytes;  app=n: after the handshake the client sends n records,
+ *        the IV draw of record n/2 fails once: all explicit IVs on the wire must be pairwise distinct and none poison
  *     -> HS client rc=.. app=.. draws=.. sent=.. after=.. leak=<none|label:enc> cap=<bytes> bt=<a,b,..> | server rc=.. ...
  */
-#include "common.h"
-#define getentropy verif_ent_getentropy          /* entropy.h's scripted source, wrapped below to record the failing call stack */
-#include "entropy.h"
-#undef getentropy
+#include "entwrap.h"                             /* scripted source + errno / repeated-attempt faults + poison + failure hook */
 #include "sysops.h"
 #include <gmssl/x509_ext.h>
 #include <sys/socket.h>
@@ -21,23 +21,28 @@
 #include <execinfo.h>
 #include <signal.h>
 
-/* ---- socket write interposition: count what a role sends, and what it sends after the failing draw */
-static size_t sent_total, sent_after;
+/* ---- socket write interposition: count and digest what a role sends, what it sends after the failing draw,
+ *      and (application phase, CBC suites) the explicit IV of every application-data record */
+static size_t sent_total, sent_after; static SM3_CTX sent_dg; static int fault_seen;
+static int collect_ivs; static uint8_t ivs[64][16]; static int nivs;
 ssize_t send(int fd, const void *buf, size_t n, int flags) {
 	ssize_t r = write(fd, buf, n);
 	(void)flags;
-	if (r > 0) { sent_total += (size_t)r; if (ent.fail_at >= 0 && ent.draws > ent.fail_at) sent_after += (size_t)r; }
+	if (r > 0) {
+		sent_total += (size_t)r; sm3_update(&sent_dg, buf, (size_t)r);
+		if (fault_seen) sent_after += (size_t)r;
+		if (collect_ivs && n >= 21 && ((const uint8_t *)buf)[0] == 23 && nivs < 64) memcpy(ivs[nivs++], (const uint8_t *)buf + 5, 16);
+	}
 	return r;
 }
-/* ---- remember the call stack of the failing draw (symbolised by the driver with addr2line) */
-static void *fail_bt[24]; static int fail_bt_n; static int bt_pipe = -1;   /* the server child reports the stack at once: it may not survive */
-int getentropy(void *buf, size_t len) {
-	int r = verif_ent_getentropy(buf, len);
-	if (r != 0 && !fail_bt_n) {
+/* ---- remember the call stack of the first failing attempt (symbolised by the driver with addr2line) */
+static void *fail_bt[24]; static int fail_bt_n; static int bt_pipe = -1;   /* reported at once: the role may not survive */
+static void on_entropy_failure(void) {
+	fault_seen = 1;
+	if (!fail_bt_n) {
 		fail_bt_n = backtrace(fail_bt, 24);
 		if (bt_pipe >= 0) { char tag = 'B'; if (write(bt_pipe, &tag, 1) == 1 && write(bt_pipe, &fail_bt_n, sizeof fail_bt_n) > 0 && write(bt_pipe, fail_bt, sizeof fail_bt) > 0) {} }
 	}
-	return r;
 }
 
 typedef struct { uint8_t ca[1024], sign[1024], enc[1024]; size_t calen, signlen, enclen; SM2_KEY cakey, signkey, enckey; } pki_t;
@@ -63,7 +68,7 @@ static int make_pki(opctx_t *c, pki_t *k) {
 	return 1;
 }
 
-typedef struct { int rc, app; long draws; size_t sent, after, cap; char leak[64]; int nbt; void *bt[24]; } report_t;
+typedef struct { int rc, app; long draws; size_t sent, after, cap; char leak[64]; int nbt; void *bt[24]; uint8_t sentdg[32]; int nivs, ivdup, sendfail; long attempts; } report_t;
 
 static int cap_fd = -1, saved1 = -1, saved2 = -1;
 static void cap_begin(void) {
@@ -102,7 +107,7 @@ static void scan_secret(report_t *r, const uint8_t *cap, size_t n, const uint8_t
 	}
 }
 
-static int client_auth;
+static int client_auth; static int fault_k; static int fault_errno; static int app_msgs;   /* options of the current op line */
 static void role(int proto, int is_client, int sock, uint64_t seed, long failat, const pki_t *pki, report_t *r) {
 	TLS_CTX ctx; TLS_CONNECT *conn = malloc(sizeof *conn); uint8_t buf[64]; size_t n = 0, capn, i, nn = 0; uint8_t *cap, *norm; uint8_t pb[32];
 	int suites[1];
@@ -122,12 +127,31 @@ static void role(int proto, int is_client, int sock, uint64_t seed, long failat,
 		if (proto == TLS_protocol_tlcp) { memcpy(ctx.certs + pki->signlen, pki->enc, pki->enclen); ctx.certslen += pki->enclen; }
 		ctx.signkey = pki->signkey; ctx.kenckey = pki->enckey;
 	}
-	sent_total = sent_after = 0; fail_bt_n = 0;
-	ent_seed(seed, failat); ent_clock(1700000000);
+	sent_total = sent_after = 0; fail_bt_n = 0; fault_seen = 0; nivs = 0; collect_ivs = 0; sm3_init(&sent_dg); ent_fail_hook = on_entropy_failure;
+	if (fault_k > 0 && failat >= 0) { ent_seed(seed, -1); entfault_set(failat, fault_k, fault_errno); errno = 0; }   /* k failing attempts, then the same bytes */
+	else ent_seed(seed, failat);
+	ent_clock(1700000000);
 	if (tls_init(conn, &ctx) != 1 || tls_set_socket(conn, sock) != 1) r->rc = -9;
 	else r->rc = tls_do_handshake(conn);
 	r->draws = ent.draws;
-	if (r->rc == 1) {
+	if (r->rc == 1 && app_msgs > 0) {
+		/* application phase with an entropy failure in the middle: the client's record IVs before and after must all differ */
+		int m; r->app = 1;
+		if (is_client) {
+			collect_ivs = 1;
+			for (m = 0; m < app_msgs; m++) {
+				uint8_t msg[32]; memset(msg, 'a' + m % 26, sizeof msg);
+				if (m == app_msgs / 2) ent.fail_at = ent.draws;          /* the next draw (this record's IV) fails once */
+				if (tls_send(conn, msg, sizeof msg, &n) != 1) r->sendfail++;
+				ent.fail_at = -1;
+			}
+			collect_ivs = 0;
+			for (m = 0; m < nivs; m++) { int q; for (q = 0; q < m; q++) if (!memcmp(ivs[m], ivs[q], 16)) r->ivdup = 1; if (poison_run(ivs[m], 16) >= 8) r->ivdup = 2; }
+			r->nivs = nivs;
+		} else {
+			while (tls_recv(conn, buf, sizeof buf, &n) == 1) {}
+		}
+	} else if (r->rc == 1) {
 		if (is_client) {
 			r->app = tls_send(conn, (const uint8_t *)"ping-from-client", 16, &n) == 1 && tls_recv(conn, buf, sizeof buf, &n) == 1 && n == 16 && !memcmp(buf, "pong-from-server", 16);
 		} else {
@@ -135,7 +159,7 @@ static void role(int proto, int is_client, int sock, uint64_t seed, long failat,
 		}
 	}
 	shutdown(sock, SHUT_RDWR);
-	r->sent = sent_total; r->after = sent_after;
+	r->sent = sent_total; r->after = sent_after; r->attempts = entfault.failed_attempts; sm3_finish(&sent_dg, r->sentdg);
 	r->nbt = fail_bt_n; memcpy(r->bt, fail_bt, sizeof fail_bt);
 	free(ctx.cacerts); free(ctx.certs);
 	cap = cap_end(&capn); r->cap = capn;
@@ -157,15 +181,23 @@ static void role(int proto, int is_client, int sock, uint64_t seed, long failat,
 }
 static void print_report(const char *who, const report_t *r) {
 	int i;
-	printf("%s rc=%d app=%d draws=%ld sent=%zu after=%zu leak=%s cap=%zu bt=", who, r->rc, r->app, r->draws, r->sent, r->after, r->leak, r->cap);
+	printf("%s rc=%d app=%d draws=%ld sent=%zu after=%zu leak=%s cap=%zu attempts=%ld ivs=%d ivdup=%d sendfail=%d sentdg=", who, r->rc, r->app, r->draws, r->sent, r->after, r->leak, r->cap,
+		r->attempts, r->nivs, r->ivdup, r->sendfail);
+	puthex(r->sentdg, 8);
+	printf(" bt=");
 	if (!r->nbt) printf("-");
 	for (i = 0; i < r->nbt; i++) printf("%s%lx", i ? "," : "", (unsigned long)r->bt[i]);
 }
 
 static void handle(size_t nw, char **w) {
 	int proto, sv[2], pfd[2]; uint64_t seed; long cf, sf; report_t rc_, rs_; opctx_t *c; pki_t *pki; ssize_t got;
-	if ((nw != 5 && nw != 6) || strcmp(w[0], "hs")) { printf("ERR usage"); return; }
-	client_auth = nw == 6 && !strcmp(w[5], "auth");
+	if (nw < 5 || nw > 8 || strcmp(w[0], "hs")) { printf("ERR usage"); return; }
+	client_auth = 0; fault_k = 0; fault_errno = -1; app_msgs = 0;
+	{ size_t a; for (a = 5; a < nw; a++) {
+		if (!strcmp(w[a], "auth")) client_auth = 1;
+		else if (!strncmp(w[a], "k=", 2)) { char *c = strchr(w[a], ':'); fault_k = atoi(w[a] + 2); fault_errno = c ? errno_of_name(c + 1) : -1; }
+		else if (!strncmp(w[a], "app=", 4)) app_msgs = atoi(w[a] + 4);
+		else { printf("ERR option %s", w[a]); return; } } }
 	proto = !strcmp(w[1], "tlcp") ? TLS_protocol_tlcp : (!strcmp(w[1], "tls12") ? TLS_protocol_tls12 : (!strcmp(w[1], "tls13") ? TLS_protocol_tls13 : 0));
 	if (!proto) { printf("ERR proto"); return; }
 	seed = strtoull(w[2], NULL, 10); cf = atol(w[3]); sf = atol(w[4]);
